@@ -23,6 +23,8 @@ type SimStorage struct {
 	FailGet int  // permille
 	FailSet int
 	FailDel int
+	// OnFault is called when a call is made to fail (op: get/set/del).
+	OnFault func(op string)
 	// OnOp is called (with the token) after every mutation, for invariants.
 	OnOp func(op, key string)
 	expiredGets []expiredGet
@@ -73,6 +75,9 @@ func (st *SimStorage) Get(key string) ([]byte, error) {
 	defer simrt.Yield(101)
 	if st.FailGet > 0 && st.S.Chance(st.FailGet) {
 		st.S.Count("fault_storage_get_error")
+		if st.OnFault != nil {
+			st.OnFault("get")
+		}
 		st.S.Logf("%s GET %q -> injected error", st.Name, key)
 		return nil, ErrInjected
 	}
@@ -103,6 +108,9 @@ func (st *SimStorage) Set(key string, val []byte, exp time.Duration) error {
 	defer simrt.Yield(102)
 	if st.FailSet > 0 && st.S.Chance(st.FailSet) {
 		st.S.Count("fault_storage_set_error")
+		if st.OnFault != nil {
+			st.OnFault("set")
+		}
 		st.S.Logf("%s SET %q -> injected error", st.Name, key)
 		return ErrInjected
 	}
@@ -133,6 +141,9 @@ func (st *SimStorage) Delete(key string) error {
 	defer simrt.Yield(103)
 	if st.FailDel > 0 && st.S.Chance(st.FailDel) {
 		st.S.Count("fault_storage_delete_error")
+		if st.OnFault != nil {
+			st.OnFault("del")
+		}
 		st.S.Logf("%s DEL %q -> injected error", st.Name, key)
 		return ErrInjected
 	}
